@@ -855,6 +855,22 @@ func (s *SpecValidator) expandedAnalyzer() *analysis.Spec {
 	return s.analyzer
 }
 
+// canJudge tells whether validators may be built from a schema of the spec to judge a default or example value.
+//
+// When some references of the spec could not be resolved (validation goes on only with ContinueOnErrors),
+// building a validator for a schema that reaches an unresolvable $ref panics: such a schema judges nothing.
+// The unresolved reference itself has been reported by validateReferencesValid.
+func (s *SpecValidator) canJudge(schema *spec.Schema) bool {
+	if s.expanded != nil {
+		return true
+	}
+	clone, err := deepCloneSchema(*schema)
+	if err != nil {
+		return false
+	}
+	return spec.ExpandSchema(&clone, s.spec.Spec(), nil) == nil
+}
+
 func deepCloneSchema(src spec.Schema) (spec.Schema, error) {
 	var b bytes.Buffer
 	if err := gob.NewEncoder(&b).Encode(src); err != nil {
